@@ -176,6 +176,7 @@ fn refname(ns: &radicle::crypto::PublicKey, t: &TypeName, id: &ObjectId) -> radi
 }
 
 fn one(rep: &mut Reporter, seed: u64, thorough: bool) {
+    rep.case(seed);
     let mut rng = Rng::new(seed);
     let nd = 1 + rng.usize(3);
     let w = World::new(nd, nd + 2, 1 + rng.usize(nd), "c09");
